@@ -605,4 +605,113 @@ theorem nodup_allKeys (j : Job) (ions : List Ion) (hn : 1 ≤ j.annotation.seq.l
       simp [this]
     · simp at hk
 
+/-! ### masses: table offset + sum of the components of the ion's own span -/
+
+/-- everything in an ion's mass that does not come from its residues -/
+def ionBase (j : Job) (t : Ion) (c iso : Int) (loss : Rat) : Rat :=
+  j.env.P.fragAdjN j.monoisotopic + labelShift j t c + j.env.P.proton * ((c - 1 : Int) : Rat) +
+    j.env.P.ionOffset j.monoisotopic t + j.env.P.fragAdj j.monoisotopic t + (iso : Rat) * j.env.P.neutron + loss
+
+theorem mass_formula (j : Job) (k : Key) :
+    (mkFrag j k).mass =
+      roundOpt (spanSum j.massComponents k.start k.stop + ionBase j k.ion k.charge k.isotope k.loss) j.precision := by
+  simp only [mkFrag, adjustMass, baseMass, adjustMassN, ionBase]
+  congr 1
+  grind
+
+theorem neutral_formula (j : Job) (k : Key) :
+    (mkFrag j k).neutralMass = spanSum j.massComponents k.start k.stop + ionBase j k.ion 0 k.isotope k.loss := by
+  simp only [mkFrag, adjustMass, baseMass, adjustMassN, ionBase, roundOpt]
+  grind
+
+theorem rat_sum_append (l₁ l₂ : List Rat) : (l₁ ++ l₂).sum = l₁.sum + l₂.sum := by
+  induction l₁ with
+  | nil => simp [Rat.zero_add]
+  | cons a l ih => simp [ih, Rat.add_assoc]
+
+/-- prefix sums: the component sum of a span is additive in the cut point -/
+theorem spanSum_split (comps : List Rat) (s m e : Int) (h0 : 0 ≤ s) (h1 : s ≤ m) (h2 : m ≤ e) :
+    spanSum comps s e = spanSum comps s m + spanSum comps m e := by
+  unfold spanSum pySlice
+  have e1 : e.toNat - s.toNat = (m.toNat - s.toNat) + (e.toNat - m.toNat) := by omega
+  have e2 : m.toNat = s.toNat + (m.toNat - s.toNat) := by omega
+  rw [e1, List.take_add, rat_sum_append, List.drop_drop, ← e2]
+
+/-- locality: the component sum of a span reads only the components inside the span -/
+theorem spanSum_congr (c₁ c₂ : List Rat) (s e : Int) (h0 : 0 ≤ s)
+    (h : ∀ i : Nat, s ≤ (i : Int) → (i : Int) < e → c₁[i]? = c₂[i]?) : spanSum c₁ s e = spanSum c₂ s e := by
+  unfold spanSum pySlice
+  congr 1
+  apply List.ext_getElem?
+  intro i
+  rw [List.getElem?_take, List.getElem?_take, List.getElem?_drop, List.getElem?_drop]
+  split
+  · apply h <;> omega
+  · rfl
+
+/-! ### return types as projections -/
+
+/-- what each return type shows of a `Fragment` (through the dataclass's own `mass` / `mz` / `label`) -/
+def project (showLoss : Rat → List Char) (rt : RT) : Out → Except Err Out
+  | .frag f =>
+    match rt with
+    | .mass => .ok (.num f.mass)
+    | .mz => .ok (.num f.mz)
+    | .label => (f.label showLoss).map .label
+    | .massLabel => (f.label showLoss).map (.numLabel f.mass)
+    | .mzLabel => (f.label showLoss).map (.numLabel f.mz)
+    | _ => .ok (.frag f)
+  | o => .ok o
+
+theorem classified_of_mem_allKeys (j : Job) (ions : List Ion) (k : Key) (h : k ∈ allKeys j ions) : Classified k.ion := by
+  unfold allKeys at h
+  have ionOf : ∀ (spans : List Span) (l : List Ion), k ∈ loopKeys j spans l → k.ion ∈ l := by
+    intro spans l hk
+    obtain ⟨_, _, _, _, ht, _⟩ := (mem_loopKeys _ _ _ _).1 hk
+    exact ht
+  simp only [List.mem_append] at h
+  rcases h with ((h | h) | h) | h
+  · exact Or.inl (List.mem_filter.1 (ionOf _ _ h)).2
+  · exact Or.inr (Or.inl (List.mem_filter.1 (ionOf _ _ h)).2)
+  · exact Or.inr (Or.inr (Or.inl (List.mem_filter.1 (ionOf _ _ h)).2))
+  · split at h
+    · exact Or.inr (Or.inr (Or.inr (by simpa using ionOf _ _ h)))
+    · simp at h
+
+/-- the same job with another `return_type` -/
+def Job.withRT (j : Job) (rt : RT) : Job := { j with returnType := rt }
+
+theorem frag_label_mkFrag (j : Job) (k : Key) (h : Classified k.ion) :
+    (mkFrag j k).label j.env.showLoss = .ok (labelOf j k) := by
+  simp only [Frag.label, Frag.number, mkFrag, labelOf, getNumber_ok h, bind, Except.bind, pure, Except.pure]
+
+theorem outOf_withRT_fragment (j : Job) (k : Key) : outOf (j.withRT .fragment) k = [.frag (mkFrag j k)] := rfl
+
+theorem project_outOf (j : Job) (rt : RT) (hrt : rt ≠ .other) (k : Key) (h : Classified k.ion) :
+    (outOf (j.withRT .fragment) k).mapM (project j.env.showLoss rt) = .ok (outOf (j.withRT rt) k) := by
+  have hl := frag_label_mkFrag j k h
+  rw [outOf_withRT_fragment]
+  cases rt
+  · rfl
+  · rfl
+  · rfl
+  · show (do let b ← (Except.map Out.label ((mkFrag j k).label j.env.showLoss)); let bs ← pure []; pure (b :: bs)) = _
+    rw [hl]; rfl
+  · show (do let b ← (Except.map (Out.numLabel (mkFrag j k).mass) ((mkFrag j k).label j.env.showLoss));
+             let bs ← pure []; pure (b :: bs)) = _
+    rw [hl]; rfl
+  · show (do let b ← (Except.map (Out.numLabel (mkFrag j k).mz) ((mkFrag j k).label j.env.showLoss));
+             let bs ← pure []; pure (b :: bs)) = _
+    rw [hl]; rfl
+  · exact absurd rfl hrt
+
+theorem mapM_flatMap_ok {α β γ} (f : α → List β) (g : α → List γ) (p : β → Except Err γ) (l : List α)
+    (h : ∀ x ∈ l, (f x).mapM p = .ok (g x)) : (l.flatMap f).mapM p = .ok (l.flatMap g) := by
+  induction l with
+  | nil => rfl
+  | cons a l ih =>
+    rw [List.flatMap_cons, List.mapM_append, h a List.mem_cons_self,
+      ih (fun x hx => h x (List.mem_cons_of_mem _ hx))]
+    rfl
+
 end Fragment
